@@ -153,13 +153,14 @@ class MarkovChainLevyCopula(LevyProcess):
                 ]
             ]
         ).T
-        V = 0.0 if self.model.jump_of_finite_variation() else 1.0
+        # the cut-off of the tilde representation is the margin's own (see LevyTriplet.tilde_drift), not the joint one
+        Vs = [0.0 if model.jump_of_finite_variation() else 1.0 for model in models]
         mu_tilde = np.array(
             [
                 [
                     model.levy_triplet.nu.integrate_against_x(-np.inf, -V)
                     + model.levy_triplet.nu.integrate_against_x(V, np.inf)
-                    for model in models
+                    for model, V in zip(models, Vs)
                 ]
             ]
         ).T
